@@ -11,6 +11,7 @@ import SJ.Drv.C03
 import SJ.Drv.C17
 import SJ.Drv.C08
 import SJ.Drv.C15
+import SJ.Drv.C16
 /-!
 `sjdriver` — reads case lines `op args… => impl-observation` on stdin, runs the Lean model and the
 executable specification on each, prints
@@ -35,6 +36,7 @@ def allHandlers : List (String × Handler) :=
     C17.handlers,
     C08.handlers,
     C15.handlers,
+    C16.handlers,
   ]
 
 def findHandler (op : String) : Option Handler := (allHandlers.find? (·.1 == op)).map (·.2)
